@@ -191,10 +191,12 @@ func (c ColMap[K, V]) Prepare() error {
 
 // Infer ensures Inferable column propagation.
 func (c *ColMap[K, V]) Infer(t ColumnType) error {
-	keytype, valtype, hascomma := strings.Cut(string(t.Elem()), ",")
-	if !hascomma || strings.ContainsRune(valtype, ',') {
+	// Value type can contain commas itself, e.g. Map(String, Enum8('a' = 1, 'b' = 2)).
+	params := splitTypeParams(string(t.Elem()))
+	if len(params) != 2 {
 		return errors.New("invalid map type")
 	}
+	keytype, valtype := params[0], params[1]
 	if v, ok := c.Keys.(Inferable); ok {
 		ct := ColumnType(strings.TrimSpace(keytype))
 		if err := v.Infer(ct); err != nil {
